@@ -46,6 +46,8 @@ FUNCS = [  # (lean name, file, class, method, translator key, lean type)
     ("reservedNames", "statemachine/event.py", None, "_event_data_kwargs", "reserved", "List String"),
     ("injectedNames", "statemachine/event_data.py", "EventData", "extended_kwargs", "injected", "List String"),
     ("parser", "statemachine/spec_parser.py", None, "spec_parser", "parser", "ParserScript"),
+    ("bindExpected", "statemachine/signature.py", "SignatureAdapter", "bind_expected", "bind", "List B.FStmt"),
+    ("callableMethod", "statemachine/dispatcher.py", None, "callable_method", "callable", "B.CallableScript"),
 ]
 ASYNC_DEF = {"activateAsync", "triggerAsync", "processAsync", "wrapperDunder", "execAsyncCall", "execAsyncAll"}
 
@@ -723,9 +725,249 @@ def tr_parser(tree):
             f"  replacements := {pairs(repl)} }}")
 
 
+# ----------------------------------------------------------------------------------------- signature.py
+
+KINDS = {"POSITIONAL_ONLY": "po", "POSITIONAL_OR_KEYWORD": "pk", "VAR_POSITIONAL": "vp", "KEYWORD_ONLY": "ko",
+         "VAR_KEYWORD": "vk"}
+
+
+def _bcond(node, env):
+    """a test on the current parameter -> BCond"""
+    if isinstance(node, ast.BoolOp):
+        op = ".and" if isinstance(node.op, ast.And) else ".or"
+        parts = [_bcond(v, env) for v in node.values]
+        acc = parts[0]
+        for q in parts[1:]:
+            acc = f"({op} {acc} {q})"
+        return acc
+    t = text(node, env).replace("PNAME", "PARAM.name")
+    m = re.match(r"^PARAM\.kind (==|!=|is|is not) Parameter\.(\w+)$", t)
+    if m and m.group(2) in KINDS:
+        return f"(.kind{'Is' if m.group(1) in ('==', 'is') else 'Ne'} .{KINDS[m.group(2)]})"
+    if t == "PARAM.name in K":
+        return ".nameInKw"
+    if t in ("PARAM.default is not Parameter.empty", "PARAM.default != Parameter.empty"):
+        return ".hasDefault"
+    raise Untranslatable(f"bind_expected: test at line {node.lineno} not recognised: {t!r}")
+
+
+def _pure_message(node, env):
+    """`msg = '…'` / `msg = msg.format(arg=param.name)`: builds the text of the TypeError, touches nothing else"""
+    if not (isinstance(node, ast.Assign) and len(node.targets) == 1 and isinstance(node.targets[0], ast.Name)):
+        return False
+    v = node.value
+    if isinstance(v, ast.Constant) and isinstance(v.value, str):
+        return True
+    t = text(v, env).replace("PNAME", "PARAM.name")
+    return bool(re.match(r"^(\w+)\.format\(arg=PARAM\.name\)$", t)) and t.startswith(node.targets[0].id + ".")
+
+
+def _bblock(stmts, env, have_arg):
+    out = []
+    i = 0
+    while i < len(stmts):
+        s = stmts[i]
+        i += 1
+        if isinstance(s, ast.Pass):
+            continue
+        if isinstance(s, ast.Break):
+            out.append(".act .brk")
+            continue
+        if isinstance(s, ast.Continue):
+            out.append(".act .cont")
+            continue
+        if isinstance(s, ast.If):
+            c = _bcond(s.test, env)
+            out.append(f".ite {c} {_bblock(s.body, env, have_arg)} {_bblock(s.orelse, env, have_arg)}")
+            continue
+        if _pure_message(s, env):
+            continue
+        t = text(s, env).replace("PNAME", "PARAM.name")
+        if re.match(r"^raise TypeError\(\w*\)( from None)?$", t):
+            out.append(".act .raiseTypeError")
+            continue
+        if t == "EX = (PARAM,)":
+            out.append(".act .pushBack")
+            continue
+        if t == "VK = PARAM":
+            out.append(".act .rememberVk")
+            continue
+        m = re.match(r"^(\w+) = PARAM\.name$", t)
+        if m:
+            bind(env, m.group(1), "PNAME")
+            continue
+        m = re.match(r"^(\w+) = \[ARG\]$", t)
+        if m and have_arg and i + 1 < len(stmts) + 0 and \
+                text(stmts[i], env) == f"{m.group(1)}.extend(AVS)" and \
+                text(stmts[i + 1], env).replace("PNAME", "PARAM.name") == f"ARGUMENTS[PARAM.name] = tuple({m.group(1)})":
+            i += 2
+            out.append(".act .fillVarPos")
+            continue
+        if t == "ARGUMENTS[PARAM.name] = K.pop(PARAM.name)":
+            out.append(".act .assignPop")
+            continue
+        if t == "ARGUMENTS[PARAM.name] = ARG" and have_arg:
+            out.append(".act .assignArg")
+            continue
+        m = re.match(r"^try:\n    (\w+) = K\.pop\(PARAM\.name\)\nexcept KeyError:\n    pass\nelse:\n"
+                     r"    ARGUMENTS\[PARAM\.name\] = \1$", t)
+        if m:
+            out.append(".act .popIfPresent")
+            continue
+        raise Untranslatable(f"bind_expected: statement at line {s.lineno} not recognised: {t!r}")
+    return "(B.blk [" + ", ".join(out) + "])"
+
+
+def _next_param(tr, env):
+    """`try: param = next(parameters)` / `except StopIteration: break` / `else: <block>` -> the else block"""
+    if not (isinstance(tr, ast.Try) and len(tr.body) == 1 and len(tr.handlers) == 1 and not tr.finalbody):
+        raise Untranslatable(f"bind_expected: line {tr.lineno}: not `try: param = next(parameters)`")
+    m = re.match(r"^(\w+) = next\(PARAMS\)$", text(tr.body[0], env))
+    h = tr.handlers[0]
+    hb = [x for x in h.body if not isinstance(x, ast.Pass)]
+    if not m or h.type is None or ast.unparse(h.type) != "StopIteration" or len(hb) != 1 \
+            or not isinstance(hb[0], ast.Break):
+        raise Untranslatable(f"bind_expected: line {tr.lineno}: not `param = next(parameters)` / `except StopIteration: break`")
+    if m.group(1) != "PARAM":
+        bind(env, m.group(1), "PARAM")
+    return tr.orelse
+
+
+def tr_bind(fn):
+    body, env = prepare_star(fn)
+    out = []
+
+    def plain(s):   # annotations on an assignment do not matter
+        if isinstance(s, ast.AnnAssign) and s.value is not None and isinstance(s.target, ast.Name):
+            s2 = ast.Assign(targets=[s.target], value=s.value, lineno=s.lineno)
+            return ast.fix_missing_locations(s2)
+        return s
+    for s in body:
+        s = plain(s)
+        t = text(s, env)
+        for pat, canon, stmt in ((r"^(\w+) = \{\}$", "ARGUMENTS", ".initArguments"),
+                                 (r"^(\w+) = iter\(self\.parameters\.values\(\)\)$", "PARAMS", ".iterParameters"),
+                                 (r"^(\w+) = iter\(A\)$", "AVS", ".iterArgs"),
+                                 (r"^(\w+) = \(\)$", "EX", ".initEx"),
+                                 (r"^(\w+) = None$", "VK", ".initVk")):
+            m = re.match(pat, t)
+            if m:
+                bind(env, m.group(1), canon)
+                out.append(stmt)
+                break
+        else:
+            if isinstance(s, ast.While):
+                if ast.unparse(s.test) != "True" or s.orelse or len(s.body) != 1 or not isinstance(s.body[0], ast.Try):
+                    raise Untranslatable(f"bind_expected: the loop at line {s.lineno} is not `while True: try: …`")
+                tr = s.body[0]
+                m = re.match(r"^(\w+) = next\(AVS\)$", text(tr.body[0], env)) if len(tr.body) == 1 else None
+                if not m or len(tr.handlers) != 1 or tr.finalbody or tr.handlers[0].type is None \
+                        or ast.unparse(tr.handlers[0].type) != "StopIteration" \
+                        or len(tr.handlers[0].body) != 1 or len(tr.orelse) != 1:
+                    raise Untranslatable(f"bind_expected: line {tr.lineno}: not `try: arg_val = next(arg_vals)` / "
+                                         "`except StopIteration:` / `else:`")
+                bind(env, m.group(1), "ARG")
+                e1 = dict(env)
+                no_arg = _bblock(_next_param(tr.handlers[0].body[0], e1), e1, False)
+                e2 = dict(env)
+                with_arg = _bblock(_next_param(tr.orelse[0], e2), e2, True)
+                for e in (e1, e2):
+                    for k, v in e.items():
+                        if v == "PARAM" and k not in env:
+                            bind(env, k, "PARAM")
+                out.append(f".whileLoop {no_arg} {with_arg}")
+                continue
+            if isinstance(s, ast.For):
+                if not isinstance(s.target, ast.Name) or s.orelse or text(s.iter, env) != "chain(EX, PARAMS)":
+                    raise Untranslatable(f"bind_expected: loop header at line {s.lineno}: {t.splitlines()[0]!r}")
+                lenv = {k: v for k, v in env.items() if v not in ("ARG", "PARAM")}
+                bind(lenv, s.target.id, "PARAM")
+                out.append(f".forRest {_bblock(s.body, lenv, False)}")
+                continue
+            if t in ("if K:\n    if VK is not None:\n        ARGUMENTS[VK.name] = K\n    else:\n        pass",
+                     "if K:\n    if VK is not None:\n        ARGUMENTS[VK.name] = K",
+                     "if K and VK is not None:\n    ARGUMENTS[VK.name] = K"):
+                out.append(".storeRestKw")
+                continue
+            if t == "return BoundArguments(self, ARGUMENTS)":
+                out.append(".retBound")
+                continue
+            raise Untranslatable(f"bind_expected: statement at line {s.lineno} not recognised: {t!r}")
+    return "[\n  " + ",\n  ".join(out) + "]"
+
+
+def tr_callable(tree):
+    """`callable_method(a_callable)`: which adapter it asks for and what the two closures do"""
+    fn = _fn(tree, "callable_method")
+    if [x.arg for x in fn.args.args] != ["a_callable"] or fn.args.vararg or fn.args.kwarg:
+        raise Untranslatable("callable_method: parameters")
+    env = {}
+    pre = []
+    closures = {}
+    post = []
+    for s in fn.body:
+        if isinstance(s, ast.Expr) and isinstance(s.value, ast.Constant):
+            continue
+        t = text(s, env)
+        m = re.match(r"^(\w+) = SignatureAdapter\.from_callable\(a_callable\)$", t)
+        if m:
+            bind(env, m.group(1), "SIG")
+            pre.append(".adapterOfCallable")
+            continue
+        m = re.match(r"^(\w+) = SIG\.bind_expected$", t)
+        if m:
+            bind(env, m.group(1), "BIND")
+            continue
+        if re.match(r"^\w+ = a_callable\.func if isinstance\(a_callable, partial\) else a_callable$", t):
+            continue    # only feeds __name__ / __doc__ below
+        if isinstance(s, ast.If) and text(s.test, env) == "SIG.is_coroutine" and len(s.body) == 1 and len(s.orelse) == 1:
+            for arm, want_async in ((s.body[0], True), (s.orelse[0], False)):
+                if not isinstance(arm, ast.AsyncFunctionDef if want_async else ast.FunctionDef):
+                    raise Untranslatable("callable_method: the coroutine arm must be `async def`, the other `def`")
+                a = arm.args
+                if a.args or not a.vararg or not a.kwarg or a.kwonlyargs or arm.decorator_list:
+                    raise Untranslatable("callable_method: adapter parameters")
+                cenv = dict(env)
+                cenv[a.vararg.arg] = "A"
+                cenv[a.kwarg.arg] = "K"
+                st = []
+                for b in arm.body:
+                    bt = text(b, cenv).replace("SIG.bind_expected", "BIND")
+                    m = re.match(r"^(\w+) = BIND\(\*A, \*\*K\)$", bt)
+                    if m:
+                        bind(cenv, m.group(1), "BA")
+                        st.append(".bindExpected")
+                        continue
+                    if bt == "return a_callable(*BA.args, **BA.kwargs)":
+                        st.append(".retCall false")
+                        continue
+                    if bt == "return await a_callable(*BA.args, **BA.kwargs)":
+                        st.append(".retCall true")
+                        continue
+                    raise Untranslatable(f"callable_method: adapter statement at line {b.lineno}: {bt!r}")
+                closures[want_async] = (arm.name, "[" + ", ".join(st) + "]")
+            if closures[True][0] != closures[False][0]:
+                raise Untranslatable("callable_method: the two adapters have different names")
+            env[closures[True][0]] = "ADAPTER"
+            continue
+        if re.match(r"^ADAPTER\.__(name|doc)__ = \w+\.__\1__$", t):
+            continue
+        if t == "ADAPTER.is_coroutine = SIG.is_coroutine":
+            post.append(".markCoroutine")
+            continue
+        if t == "return ADAPTER":
+            post.append(".retAdapter")
+            continue
+        raise Untranslatable(f"callable_method: statement at line {s.lineno} not recognised: {t!r}")
+    if True not in closures:
+        raise Untranslatable("callable_method: no `if sig.is_coroutine:` with the two adapters")
+    return ("{ pre := [" + ", ".join(pre) + "], asyncBody := " + closures[True][1] + ", syncBody := " + closures[False][1]
+            + ", post := [" + ", ".join(post) + "] }")
+
+
 TRANSLATORS = {"eventcall": tr_eventcall, "send": tr_send, "start": tr_start, "injected": tr_injected,
                "activate": tr_activate, "trigger": tr_trigger, "process": tr_process, "wrapper": tr_wrapper,
-               "executor": tr_executor}
+               "executor": tr_executor, "bind": tr_bind}
 
 
 def translate(repo):
@@ -739,6 +981,9 @@ def translate(repo):
                 continue
             if key == "parser":
                 res[name] = (ty, tr_parser(fn), None)
+                continue
+            if key == "callable":
+                res[name] = (ty, tr_callable(fn), None)
                 continue
             if key == "injected":
                 if [ast.unparse(d) for d in fn.decorator_list] != ["property"]:
@@ -813,6 +1058,14 @@ SELFTEST_EDITS = [
     ("statemachine/spec_parser.py", "    ast.Or: custom_or,", "    ast.Or: custom_and,"),
     ("statemachine/spec_parser.py", "    if expr.isidentifier() and not iskeyword(expr):", "    if \" \" not in expr:"),
     ("statemachine/event_data.py", "        kwargs[\"target\"] = self.target\n", ""),
+    ("statemachine/signature.py", "                        # 'too many positional arguments' forgiven\n                        parameters_ex = (param,)\n", "                        # 'too many positional arguments' forgiven\n"),
+    ("statemachine/signature.py", "                    if param.name in kwargs and param.kind != Parameter.POSITIONAL_ONLY:", "                    if param.name in kwargs:"),
+    ("statemachine/signature.py", "                        values.extend(arg_vals)\n", ""),
+    ("statemachine/signature.py", "                    if param.kind == Parameter.VAR_POSITIONAL:\n                        # That's OK, just empty *args.", "                    if param.kind == Parameter.VAR_KEYWORD:\n                        # That's OK, just empty *args."),
+    ("statemachine/signature.py", "            if param.kind == Parameter.VAR_POSITIONAL:\n                # Named arguments don't refer to '*args'-like parameters.\n                # We only arrive here if the positional arguments ended\n                # before reaching the last parameter before *args.\n                continue\n", ""),
+    ("statemachine/signature.py", "            if kwargs_param is not None:\n                # Process our '**kwargs'-like parameter\n                arguments[kwargs_param.name] = kwargs", "            if kwargs_param is not None:\n                # Process our '**kwargs'-like parameter\n                arguments[kwargs_param.name] = dict(kwargs, **arguments)"),
+    ("statemachine/dispatcher.py", "            return a_callable(*ba.args, **ba.kwargs)\n\n    signature_adapter.__name__", "            return a_callable(*args, **ba.kwargs)\n\n    signature_adapter.__name__"),
+    ("statemachine/dispatcher.py", "            return await a_callable(*ba.args, **ba.kwargs)", "            return a_callable(*ba.args, **ba.kwargs)"),
 ]
 
 
@@ -848,6 +1101,7 @@ def selftest(repo):
 
 
 HEADER = """import SMV.Src.IR
+import SMV.Src.IRBind
 /-! GENERATED by `harness/srcgen.py --write-expected` from the tree the theorems of `SMV/Src/Tie.lean` were
 proved for. Do not edit by hand. -/
 """
